@@ -175,7 +175,11 @@ func nativeValidate(repo, hdir, wd string, eng *Engine, results []*HarnessResult
 	os.WriteFile(casesPath, cj, 0o644)
 	outBase := filepath.Join(wd, "native_out")
 
-	args := append([]string{"test", "-vet=off", "-count=1", "-timeout", "600s", "-run", "^TestVerifReplay$", "-overlay", ovPath}, pkgArgs...)
+	args := []string{"test", "-vet=off", "-count=1", "-timeout", "900s", "-run", "^TestVerifReplay$", "-overlay", ovPath}
+	if nativeRace {
+		args = append(args, "-race")
+	}
+	args = append(args, pkgArgs...)
 	cmd := exec.Command("go", args...)
 	cmd.Dir = repo
 	cmd.Env = append(os.Environ(), "VERIF_CASES="+casesPath, "VERIF_OUT="+outBase, "GOFLAGS=-mod=mod", "GOPROXY=off")
@@ -185,6 +189,10 @@ func nativeValidate(repo, hdir, wd string, eng *Engine, results []*HarnessResult
 	runErr := cmd.Run()
 	os.WriteFile(filepath.Join(wd, "go_test.log"), buf.Bytes(), 0o644)
 
+	raceLog := ""
+	if nativeRace && strings.Contains(buf.String(), "DATA RACE") {
+		raceLog = buf.String()
+	}
 	got := map[int]*nativeResult{}
 	for dir := range needPkg {
 		pkgName := "avro"
@@ -220,6 +228,19 @@ func nativeValidate(repo, hdir, wd string, eng *Engine, results []*HarnessResult
 			}
 			f.NativeOut = summarizeEvents(nr)
 			f.Confirmed = confirmFinding(f, nr)
+			if (f.Kind == "shared-write" || f.Kind == "unlocked-read") && raceLog != "" {
+				// the race detector saw an unsynchronised pair in this run;
+				// accept it as this finding's confirmation if the offending
+				// function appears in a report
+				fn := f.Site
+				if i := strings.LastIndex(fn, "."); i >= 0 {
+					fn = fn[i+1:]
+				}
+				if strings.Contains(raceLog, fn) {
+					f.Confirmed = "yes"
+					f.NativeOut = "native replay under -race: DATA RACE reported involving " + fn
+				}
+			}
 			if f.Kind == "heap-typing" && dropGCFails(nr) {
 				f.Confirmed = "yes"
 				f.NativeOut = "native replay: decoded value did not survive forced collections and allocation churn"
@@ -249,6 +270,8 @@ func nativeValidate(repo, hdir, wd string, eng *Engine, results []*HarnessResult
 	}
 	return nil
 }
+
+var nativeRace bool
 
 func hasKind(hr *HarnessResult, kind string) bool {
 	for i := range hr.Findings {
